@@ -26,8 +26,7 @@ theorem syncWake_undrained (h : Hints) (s : State) (q : ScqId) (w : WId) (wk : W
     (hdw : wk.drainWait = some g) (hg : g ≠ sq.undrainGen) :
     syncWake h s s.now q w 3 = getNextTask h (s.setWorker { wk with drainWait := none }) q w false true := by
   unfold syncWake
-  simp only [enter_now, bind, Except.bind, hwk, hin, Bool.not_true, Bool.false_eq_true, if_false, hsq, hdw, hg, pure,
-    Except.pure]
+  simp only [enter_now, bind, Except.bind, hwk, hin, Bool.not_true, Bool.false_eq_true, if_false, hsq, hdw, hg]
 
 /-- the timeout of a blocked `Synchronize` always returns -/
 theorem syncWake_timeout (h : Hints) (s : State) (q : ScqId) (w : WId) (wk : Worker)
@@ -45,7 +44,7 @@ theorem streamWake_changed (h : Hints) (s : State) (c : Nat) (st : Stream) (op :
     (ht : s.task? op.task = some t) (hg : t.gen ≠ st.snap) :
     streamWake h s s.now c 0 = streamSend s c st.op := by
   unfold streamWake
-  simp only [enter_now, bind, Except.bind, hst, hop, ht, hg, if_true, if_false, pure, Except.pure]
+  simp only [enter_now, bind, Except.bind, hst, hop, ht, hg, if_true, if_false]
   simp
 
 /-- the update timer and the cancellation of a parked stream need no condition -/
@@ -53,7 +52,7 @@ theorem streamWake_timer (h : Hints) (s : State) (c : Nat) (st : Stream)
     (hst : s.streams.find? (fun x => x.client = c) = some st) :
     streamWake h s s.now c 1 = streamSend s c st.op ∧ streamWake h s s.now c 2 = streamLeave s c cCanceled := by
   unfold streamWake
-  simp only [enter_now, bind, Except.bind, hst, pure, Except.pure]
+  simp only [enter_now, bind, Except.bind, hst]
   simp
 
 /-- a blocked `TerminateWorkers` call all of whose captured tasks have moved on returns OK -/
